@@ -417,23 +417,102 @@ func (c *normCtx) tryExtract(value ast.Value, expected Input) (ast.Value, bool) 
 	if expected == nil {
 		return value, false
 	}
-	// Coerce literal once at extract time. We pass nil variableValues
-	// because we already know the value tree contains no variables.
-	coerced := valueFromAST(value, expected, nil)
-	if coerced == nil {
-		// valueFromAST returns nil for literals it can't coerce
-		// (typically a type mismatch the validator should have caught
-		// earlier). Don't extract; let the executor surface the
-		// downstream error against the original literal.
+	// The extracted value travels back as a variable value and goes
+	// through variable coercion when the plan is executed. That is only
+	// equivalent to the literal staying in place when (a) the literal is
+	// valid for the argument type -- otherwise validation must see it and
+	// reject the request --, and (b) coercing the value as a variable gives
+	// what coercing the literal gives, which the library can only promise
+	// for its own scalars, enums, and input objects and lists built from
+	// them (a custom scalar may parse literals and variable values
+	// differently).
+	if !extractableType(expected, map[*InputObject]bool{}) {
+		return value, false
+	}
+	if valid, _ := isValidLiteralValue(expected, value); !valid {
+		return value, false
+	}
+	// The variable value is the literal in its external (JSON-like) form:
+	// enum values by name, objects as maps. It must not be the coerced
+	// internal value, which variable coercion would reject or mangle.
+	external := externalFromLiteral(value)
+	if external == nil {
 		return value, false
 	}
 	name := c.nextName()
-	c.synthArgs[name] = coerced
+	c.synthArgs[name] = external
 	c.newVarDefs = append(c.newVarDefs, ast.NewVariableDefinition(&ast.VariableDefinition{
 		Variable: ast.NewVariable(&ast.Variable{Name: ast.NewName(&ast.Name{Value: name})}),
 		Type:     typeASTFromGoType(expected),
 	}))
 	return ast.NewVariable(&ast.Variable{Name: ast.NewName(&ast.Name{Value: name})}), true
+}
+
+// extractableType reports whether literals of type t can be handed back as
+// variable values without changing what resolvers receive.
+func extractableType(t Type, seen map[*InputObject]bool) bool {
+	switch tt := t.(type) {
+	case *NonNull:
+		return extractableType(tt.OfType, seen)
+	case *List:
+		return extractableType(tt.OfType, seen)
+	case *Scalar:
+		return tt == Int || tt == Float || tt == String || tt == Boolean || tt == ID
+	case *Enum:
+		return true
+	case *InputObject:
+		if seen[tt] {
+			return true
+		}
+		seen[tt] = true
+		for _, field := range tt.Fields() {
+			if !extractableType(field.Type, seen) {
+				return false
+			}
+		}
+		return true
+	}
+	return false
+}
+
+// externalFromLiteral renders a variable-free literal as the value a client
+// would send for it in the variables map.
+func externalFromLiteral(value ast.Value) interface{} {
+	switch v := value.(type) {
+	case *ast.IntValue:
+		if i, err := strconv.Atoi(v.Value); err == nil {
+			return i
+		}
+		if f, err := strconv.ParseFloat(v.Value, 64); err == nil {
+			return f
+		}
+	case *ast.FloatValue:
+		if f, err := strconv.ParseFloat(v.Value, 64); err == nil {
+			return f
+		}
+	case *ast.StringValue:
+		return v.Value
+	case *ast.BooleanValue:
+		return v.Value
+	case *ast.EnumValue:
+		return v.Value
+	case *ast.ListValue:
+		out := make([]interface{}, 0, len(v.Values))
+		for _, item := range v.Values {
+			out = append(out, externalFromLiteral(item))
+		}
+		return out
+	case *ast.ObjectValue:
+		out := make(map[string]interface{}, len(v.Fields))
+		for _, f := range v.Fields {
+			if f == nil || f.Name == nil {
+				continue
+			}
+			out[f.Name.Value] = externalFromLiteral(f.Value)
+		}
+		return out
+	}
+	return nil
 }
 
 // typeASTFromGoType maps a runtime Type to its AST form so we can
